@@ -37,10 +37,10 @@ Token GH_lim; bool GH_issuer;
       ? (SLOT(self, GH_t).is_valid == __CPROVER_old(SLOT(self, GH_t).is_valid) && SLOT(self, GH_t).my_token == __CPROVER_old(SLOT(self, GH_t).my_token) \
          && SLOT(self, GH_t).my_object == __CPROVER_old(SLOT(self, GH_t).my_object) && SLOT(self, GH_t).my_token_ready == __CPROVER_old(SLOT(self, GH_t).my_token_ready)) \
       : (GH_t - self->low_token < self->array_size ==> !SLOT(self, GH_t).is_valid))
-#define LOOP_grow_1 __CPROVER_assigns(new_size) __CPROVER_loop_invariant(POW2(new_size) && new_size >= 4 && new_size <= 4 * MAXSZ && new_size >= 2 * old_size) __CPROVER_decreases(8 * MAXSZ - new_size)
-#define LOOP_grow_2 __CPROVER_assigns(i, __CPROVER_object_whole(new_array)) __CPROVER_loop_invariant(i <= new_size) \
+#define LOOP_grow_size __CPROVER_assigns(new_size) __CPROVER_loop_invariant(POW2(new_size) && new_size >= 4 && new_size <= 4 * MAXSZ && new_size >= 2 * old_size) __CPROVER_decreases(8 * MAXSZ - new_size)
+#define LOOP_grow_init __CPROVER_assigns(i, __CPROVER_object_whole(new_array)) __CPROVER_loop_invariant(i <= new_size) \
    __CPROVER_loop_invariant((GH_t & (new_size - 1)) < i ==> !new_array[GH_t & (new_size - 1)].is_valid) __CPROVER_decreases(new_size - i)
-#define LOOP_grow_3 __CPROVER_assigns(i, t, __CPROVER_object_whole(new_array)) \
+#define LOOP_grow_rehash __CPROVER_assigns(i, t, __CPROVER_object_whole(new_array)) \
    __CPROVER_loop_invariant(i <= old_size && t == self->low_token + i && POW2(old_size) && POW2(new_size) && new_size >= 2 * old_size) \
    __CPROVER_loop_invariant((GH_t - self->low_token < i) ? SAME_ITEM(new_array[GH_t & (new_size - 1)], old_array[GH_t & (old_size - 1)]) \
                                                           : (GH_t - self->low_token < new_size ==> !new_array[GH_t & (new_size - 1)].is_valid)) __CPROVER_decreases(old_size - i)
